@@ -74,7 +74,7 @@ fn ref_select(db: &Db, s: &Sel) -> Result<RefTable, RefErr> {
     match s {
         Sel::Table(t) => match t.as_str() {
             "A" => Ok(RefTable { name: Some("A".into()), cols: vec![("x".into(), false), ("y".into(), true)], rows: db.a.clone() }),
-            "B" => Ok(RefTable { name: Some("B".into()), cols: vec![("u".into(), false), ("v".into(), true)], rows: db.b.clone() }),
+            "B" => Ok(RefTable { name: Some("B".into()), cols: vec![("u".into(), false), ("v.w".into(), true)], rows: db.b.clone() }),
             _ => Err(RefErr::Err),
         },
         Sel::Wrap { from, cols, cond } => {
@@ -202,7 +202,7 @@ fn contents_b(tier: Tier) -> Vec<Vec<Vec<Val>>> {
 fn col_names(s: &Sel) -> (Option<String>, Vec<String>) {
     match s {
         Sel::Table(t) if t == "A" => (Some("A".into()), vec!["x".into(), "y".into()]),
-        Sel::Table(t) if t == "B" => (Some("B".into()), vec!["u".into(), "v".into()]),
+        Sel::Table(t) if t == "B" => (Some("B".into()), vec!["u".into(), "v.w".into()]),
         Sel::Table(_) => (None, vec![]),
         Sel::Wrap { from, cols, .. } => {
             let (n, c) = col_names(from);
@@ -358,7 +358,7 @@ pub fn run(tier: Tier) -> i32 {
             let mut h = Harness::create(0).expect("create");
             let setup = [
                 Op::CreateTable { name: "A".into(), cols: vec![ColSpec::new("x", Ty::I16).key(), ColSpec::new("y", Ty::I16).nullable()] },
-                Op::CreateTable { name: "B".into(), cols: vec![ColSpec::new("u", Ty::I16).key(), ColSpec::new("v", Ty::Str(4)).nullable()] },
+                Op::CreateTable { name: "B".into(), cols: vec![ColSpec::new("u", Ty::I16).key(), ColSpec::new("v.w", Ty::Str(4)).nullable()] },
                 Op::Insert { table: "A".into(), rows: db.a.clone() },
                 Op::Insert { table: "B".into(), rows: db.b.clone() },
             ];
@@ -456,7 +456,7 @@ pub fn replay(doc: &serde_json::Value) {
     let mut h = Harness::create(0).expect("create");
     for op in [
         Op::CreateTable { name: "A".into(), cols: vec![ColSpec::new("x", Ty::I16).key(), ColSpec::new("y", Ty::I16).nullable()] },
-        Op::CreateTable { name: "B".into(), cols: vec![ColSpec::new("u", Ty::I16).key(), ColSpec::new("v", Ty::Str(4)).nullable()] },
+        Op::CreateTable { name: "B".into(), cols: vec![ColSpec::new("u", Ty::I16).key(), ColSpec::new("v.w", Ty::Str(4)).nullable()] },
         Op::Insert { table: "A".into(), rows: db.a.clone() },
         Op::Insert { table: "B".into(), rows: db.b.clone() },
     ] {
